@@ -109,3 +109,80 @@ Section Redc.
     rewrite E in E'. injection E' as <-. congruence.
   Qed.
 End Redc.
+
+(* ---------------- mul_mod (the product buffer `[[0u64; 2]; LIMBS]` viewed as `&mut [u64]` of
+   nlimbs(2*BITS) words through from_raw_parts_mut) and pow_mod ---------------- *)
+From RV.Proofs Require Import PfGenShift.
+From RV.Model Require Shift.
+
+Lemma g_mul_mod_eq bits a b m :
+  0 <= bits -> 2 * bits + 63 < B ->
+  g_mul_mod bits (nlimbs bits) a b m = Modular.mul_mod bits a b m.
+Proof.
+  intros H0 HB. pose proof (nlimbs_nonneg bits H0) as HL.
+  pose proof (nlimbs_nonneg (2 * bits) ltac:(lia)) as HL2.
+  assert (HLB : 2 * nlimbs bits < B) by (unfold nlimbs; Z.div_mod_to_equations; lia).
+  unfold g_mul_mod, Modular.mul_mod.
+  rewrite g_is_zero_eq, <- PfModelsAgree.agree_modular_is_zero.
+  destruct (Modular.is_zero bits m); [reflexivity|]. cbv zeta.
+  rewrite chk64_ok by lia. cbn [obind]. rewrite g_nlimbs_eq by lia. cbn [obind].
+  rewrite chk64_ok by lia. cbn [obind].
+  rewrite (Z.ltb_antisym (nlimbs (2 * bits)) (2 * nlimbs bits)).
+  destruct (Z.leb_spec (nlimbs (2 * bits)) (2 * nlimbs bits)) as [Hle|Hgt]; cbn [negb]; [|reflexivity].
+  unfold lenZ. rewrite repeat_length, Z2Nat.id by lia.
+  destruct (Z.leb_spec (nlimbs (2 * bits)) (2 * nlimbs bits)); [|lia]. cbn [obind].
+  replace (firstn (Z.to_nat (nlimbs (2 * bits))) (repeat 0 (Z.to_nat (2 * nlimbs bits))))
+    with (repeat 0 (Z.to_nat (nlimbs (2 * bits)))).
+  2:{ replace (Z.to_nat (2 * nlimbs bits)) with (Z.to_nat (nlimbs (2 * bits)) + (Z.to_nat (2 * nlimbs bits) - Z.to_nat (nlimbs (2 * bits))))%nat by lia.
+      rewrite repeat_app, firstn_app, repeat_length, Nat.sub_diag, firstn_O, app_nil_r.
+      rewrite firstn_all2 by (rewrite repeat_length; lia). reflexivity. }
+  destruct (Limbs.addmul (repeat 0 (Z.to_nat (nlimbs (2 * bits)))) a b) as [product overflow].
+  destruct overflow; cbn [negb]; [reflexivity|].
+  destruct (Div.div_kernel product m) as [[q r]| | | |]; reflexivity.
+Qed.
+
+Lemma pm_loop_eq bits m cond body :
+  0 < bits -> nlimbs bits < B -> 2 * bits + 63 < B ->
+  (forall r s x, cond (r, s, x) = Val (Modular.ugt x (uZERO bits))) ->
+  (forall r s x, length x = nlimbsN bits -> body (r, s, x) =
+     do r' <- (if Z.land (nth 0 x 0) 1 =? 1 then Modular.mul_mod bits r s m else Val r) ;
+     do s' <- Modular.mul_mod bits s s m ;
+     Val (r', s', Shift.shr_prim bits x 1)) ->
+  forall fuel r s x, length x = nlimbsN bits ->
+  (do t <- while_fuel fuel (r, s, x) cond body ; let '(r', _, _) := t in Val r')
+  = Modular.pow_loop fuel bits r s x m.
+Proof.
+  intros Hpos HB HB2 Hc Hb. induction fuel as [|fuel IH]; intros r s x Lx; [reflexivity|].
+  cbn [while_fuel Modular.pow_loop]. rewrite Hc. cbn [obind].
+  destruct (Modular.ugt x (uZERO bits)); [|reflexivity].
+  rewrite (Hb r s x Lx).
+  destruct (if Z.land (nth 0 x 0) 1 =? 1 then Modular.mul_mod bits r s m else Val r) as [r'| | | |]; try reflexivity.
+  cbn [obind]. destruct (Modular.mul_mod bits s s m) as [s'| | | |]; try reflexivity. cbn [obind].
+  apply IH. unfold Shift.shr_prim. apply wrapping_shr_length; [lia | exact Lx | lia].
+Qed.
+
+Theorem g_pow_mod_eq bits a e m :
+  0 <= bits -> nlimbs bits < B -> 2 * bits + 63 < B -> length e = nlimbsN bits ->
+  g_pow_mod bits (nlimbs bits) a e m = Modular.pow_mod bits a e m.
+Proof.
+  intros H0 HB HB2 Le. unfold g_pow_mod, Modular.pow_mod, g_cmp.
+  rewrite PfModelsAgree.agree_udiv_uone, <- PfModelsAgree.agree_modular_uONE.
+  change (match Add.limbs_cmp m (Modular.uONE bits) with Gt => false | _ => true end) with (Modular.ule m (Modular.uONE bits)).
+  destruct (Z.eqb_spec bits 0) as [E0|N0]; cbn [orb]; [reflexivity|].
+  destruct (Modular.ule m (Modular.uONE bits)); [reflexivity|]. cbv zeta.
+  match goal with |- context [while_fuel _ _ ?c ?bd] => pose proof (pm_loop_eq bits m c bd ltac:(lia) HB HB2) as HW end.
+  apply HW; [| |exact Le].
+  - intros r s x. reflexivity.
+  - intros r s x Lx. cbv beta iota.
+    destruct (PfModelsAgree.nlimbsN_pos bits ltac:(lia)) as (n & Hn).
+    destruct x as [|x0 xt]; [rewrite Hn in Lx; discriminate|].
+    change (idx (x0 :: xt) 0) with (Val x0 : outcome Z). cbn [obind nth].
+    rewrite !g_mul_mod_eq by lia.
+    destruct (Z.land x0 1 =? 1).
+    + destruct (Modular.mul_mod bits r s m) as [r'| | | |]; try reflexivity. cbn [obind].
+      destruct (Modular.mul_mod bits s s m) as [s'| | | |]; try reflexivity. cbn [obind].
+      destruct (g_shift_wrappers_eq bits (x0 :: xt) 1 H0 HB Lx ltac:(lia)) as (_ & _ & _ & _ & Es). rewrite Es. reflexivity.
+    + cbn [obind].
+      destruct (Modular.mul_mod bits s s m) as [s'| | | |]; try reflexivity. cbn [obind].
+      destruct (g_shift_wrappers_eq bits (x0 :: xt) 1 H0 HB Lx ltac:(lia)) as (_ & _ & _ & _ & Es). rewrite Es. reflexivity.
+Qed.
